@@ -613,4 +613,43 @@ def readString (line : List Nat) : LexRes :=
         | .error _ => .error
         | .ok b => .ok (if byteString then .bytes b else .str b) rest
 
+/-! ### builtin `ascii` (third round) -/
+
+/-- one rune of `StringEscape(_, ascii=true)`: no quotes are added and nothing below U+007F is escaped
+again – `builtin_ascii` applies it to the text `repr` produced -/
+def asciiRune (c : Nat) : List Nat :=
+  if c < 0x20 then
+    if c = 9 then [92, 116] else if c = 10 then [92, 110] else if c = 13 then [92, 114]
+    else [92, 120] ++ hexDigits c 2
+  else if c < 0x7F then [c]
+  else if c < 0x100 then [92, 120] ++ hexDigits c 2
+  else if c < 0x10000 then [92, 117] ++ hexDigits c 4
+  else [92, 85] ++ hexDigits c 8
+
+def asciiRunes : List Nat → List Nat
+  | [] => []
+  | c :: t => asciiRune c ++ asciiRunes t
+
+/-- `ascii(s)` for a str: `StringEscape(repr(s), true)` -/
+def strAscii (isPrint : Nat → Bool) (cs : List Nat) : List Nat := asciiRunes (escapeRunes isPrint cs)
+
+/-! ### the method table of `str` (third round) -/
+
+/-- the keys `init()` of py/string.go puts into `StringType.Dict`: every other attribute name looked up on a
+str (`py.GetAttrString`) that is not a slot (`__len__` …) is an AttributeError -/
+def strMethods : List String :=
+  ["endswith", "count", "find", "replace", "split", "startswith", "strip", "rstrip", "lstrip", "upper", "lower", "join"]
+
+/-- `py.GetAttrString(String, name)` for a method name -/
+def hasMethod (name : String) : Bool := strMethods.contains name
+
+def lookupMethod (name : String) : Except Err Unit :=
+  if hasMethod name then .ok () else .error .attr
+
+/-- the methods of Python's `str` this property speaks about (index arithmetic on code points) -/
+def propertyMethods : List String :=
+  ["startswith", "endswith", "find", "rfind", "index", "rindex", "count", "replace", "split", "rsplit",
+   "partition", "rpartition", "strip", "lstrip", "rstrip", "center", "ljust", "rjust", "zfill", "join"]
+
+
 end GPy.C14
